@@ -166,8 +166,10 @@ theorem frame_step (c : Cfg) (k : Kernel) {pid : Nat} (h : pid ≠ 0) (req : Req
       · split
         · exact frame_cpuAffinitySet k h _
         · split
-          · exact Frame.refl _ _
           · exact frame_cpuAffinitySet k h _
+          · split
+            · exact Frame.refl _ _
+            · exact frame_cpuAffinitySet k h _
       · exact frame_cpuAffinitySet k h _
   | rlimit res l => exact frame_rlimitL c k h res l
 
